@@ -76,8 +76,21 @@ impl Parseable for GlobalOption {
     fn parse(input: &mut &'_ str) -> PResult<GlobalOption> {
         alt((
             literal("-depth").value(GlobalOption::Depth),
-            unary!("-maxdepth", GlobalOption::MaxDepth, u32::parse),
-            unary!("-mindepth", GlobalOption::MinDepth, u32::parse),
+            // Disabled in LiPE: recognised so the error names them, but always rejected
+            unary!(
+                "-maxdepth",
+                GlobalOption::MaxDepth,
+                u32::parse
+                    .verify(|_: &u32| false)
+                    .context(expected("unsupported_option"))
+            ),
+            unary!(
+                "-mindepth",
+                GlobalOption::MinDepth,
+                u32::parse
+                    .verify(|_: &u32| false)
+                    .context(expected("unsupported_option"))
+            ),
             unary!("-threads", GlobalOption::Threads, u32::parse),
         ))
         .context(label("global_option"))
